@@ -1141,7 +1141,7 @@ class SklearnEKFAdapter(BaseEstimator):
                                 ),
                             ),
                             self.model_.innovations[key],
-                        )
+                        ).item()
                     )
                 )
                 if np.any(self.model_.sensor_prediction_uncertainty[key] < 0.0):
